@@ -28,7 +28,7 @@ ASSUMPTIONS = [
 ]
 BUDGET = {"quick": 80, "thorough": 800}
 ROUNDS = {"thorough": 8}
-FLOORS = {"batched_tree_checks": {"quick": 15, "thorough": 150}, "after_tree_change_checks": {"quick": 100, "thorough": 1000}, "batched_heights": {"quick": 30, "thorough": 300}, "quadratic_form_checks": {"quick": 300, "thorough": 3000}, "quadrature_checks": {"quick": 100, "thorough": 800},
+FLOORS = {"grid_point_on_a_coalescent_time": {"quick": 20, "thorough": 200}, "reparameterised_trees": {"quick": 20, "thorough": 200}, "batched_tree_checks": {"quick": 15, "thorough": 150}, "after_tree_change_checks": {"quick": 100, "thorough": 1000}, "batched_heights": {"quick": 30, "thorough": 300}, "quadratic_form_checks": {"quick": 300, "thorough": 3000}, "quadrature_checks": {"quick": 100, "thorough": 800},
           "statistics_checks": {"quick": 250, "thorough": 2500}, "variants": 4}
 
 KINDS = ["gmrf-quadratic", "gmrf-quadratic", "gmrf-integrated", "coalescent-integrated", "skyride-statistics", "skygrid-statistics", "skygrid-statistics"]
@@ -57,8 +57,18 @@ def gmrf_setup(case, rng, integrated=False):
         n = case["n"]
         s = c08.sampling(rng, n, case["scheme"])
         c = kg.simulate(rng, s, float(gm.loguniform(rng, 0.1, 10)))
-        tree_spec, ih = c08.tree_entry(None, {"sampling": s, "coalescent": c}, None, rng)
-        spec += tree_spec
+        if case["seed"] % 3 == 0:
+            # a reparameterised time tree (ratios + root height, or height increments): what torchtree-cli builds; its internal
+            # parameter vector is not a vector of heights
+            from ..gen import phylo, timetree as gt
+            from ..ref import tree as rt
+
+            tc = gt.make_case(rng, rt.random_topology(n, rng), ["ratio", "shift"][case["seed"] % 2], None, 0)
+            spec += [phylo.taxa_json(tc), gt.tree_json(tc)]
+            numbers["reparameterised_tree"] = tc["param"]
+        else:
+            tree_spec, ih = c08.tree_entry(None, {"sampling": s, "coalescent": c}, None, rng)
+            spec += tree_spec
         dim = n - 1
         numbers.update(sampling=s, coalescent=c)
     else:
@@ -101,6 +111,8 @@ def run_case(case):
         C["variants"] = [var]
         spec, numbers, dim = gmrf_setup(case, rng)
         detail["numbers"] = numbers
+        if numbers.get("reparameterised_tree"):
+            C["reparameterised_trees"] = 1
         objs, dic = tt.load(spec)
         g = dic["gmrf"]
         val = tt.as_np(g(), "C20:not-a-tensor:gmrf", "GMRF()")
@@ -290,6 +302,13 @@ def run_case(case):
 
             G = int(rng.integers(1, 9))
             grid = c08.make_grid(rng, str(rng.choice(["regular", "irregular", "early", "beyond-root", "on-sampling-time"])), G, s, c)
+            if case["seed"] % 4 == 1:
+                # a grid point exactly on a coalescent time (integer dates with an integer grid, a cutoff that is a multiple of a node
+                # height): to which epoch the event belongs is a convention, but density and statistics have to share it
+                gi = int(rng.integers(len(grid)))
+                grid[gi] = float(c[int(rng.integers(len(c)))])
+                grid = sorted(set(grid))
+                C["grid_point_on_a_coalescent_time"] = 1
             k = len(grid) + 1
             th = gm.loguniform(rng, 1e-2, 1e3, (B, k) if B else (k,))
             dist = PiecewiseConstantCoalescentGrid(torch.tensor(th), torch.tensor(grid, dtype=torch.float64))
